@@ -186,8 +186,8 @@ class C15(E2EProp):
     id = "C15"
     cone = ["Properties/C15.vo"]
     prop_file = "Properties/C15.v"
-    theorems = ["C15_escaped_text_is_never_control", "C15_specials_are_escaped"]
-    partial = ["C15_lines / C15_quoted on whole mom output (every text-bearing position goes through escape.Roff): tied by S-e2e-mom bytes, searched by the line oracle; proof pending"]
+    theorems = ["C15_escaped_text_is_never_control", "C15_specials_are_escaped", "C15_model_text_is_escaped", "C15_model_arguments_are_escaped"]
+    partial = ["C15_lines / C15_quoted on whole mom output: proved for what the text renderer of the model returns in mom format (C15_model_text_is_escaped, C15_model_arguments_are_escaped: text blocks and rendered arguments, any typography, any inlines); that every text-bearing position of Model/Mom.v writes only such text or its own requests, at the right place in a line, is tied by S-e2e-mom bytes and searched by the line oracle, not proved"]
     assumptions = ["escape.Roff = Repl.enc roff_table (S-esc-roff)", "mom exporter = Model/Mom.v (S-e2e-mom)"]
 
     @staticmethod
